@@ -208,6 +208,25 @@ def call_impl(fn, *a, **kw):
         return ("err", errname(e), f"{type(e).__name__}: {e}")
 
 
+def vary_layout(a, key):
+    """the same logical array in another memory layout for about half of the keys: Fortran order, or the transposed view of a
+    C-ordered array (rank >= 2 only). What the library computes must not depend on it, and it must not write into it."""
+    import zlib
+    if not isinstance(a, np.ndarray) or a.ndim < 2 or a.size == 0:
+        return a
+    h = zlib.crc32(repr(key).encode()) % 4
+    if h == 1:
+        return np.asfortranarray(a)
+    if h == 2:
+        return np.ascontiguousarray(a.T).T      # F-contiguous view that does not own its data
+    return a
+
+
+def frozen(a):
+    """bitwise snapshot of an array argument (to check afterwards that a call did not write into it)"""
+    return None if not isinstance(a, np.ndarray) else (a.dtype.str, a.shape, a.tobytes())
+
+
 # ----------------------------------------------------------------------------------------------
 # context
 # ----------------------------------------------------------------------------------------------
